@@ -1566,6 +1566,10 @@ def main(argv):
                 sys.stderr.write("rs2lean: %s: %s\n" % (name, e))
                 rc = 1
                 continue
+            except Exception as e:      # anything unexpected is a rejection too, never a silent pass
+                sys.stderr.write("rs2lean: %s: internal error %s: %s\n" % (name, type(e).__name__, str(e)[:200]))
+                rc = 1
+                continue
             path = os.path.join(outdir, name + ".lean")
             old = open(path).read() if os.path.exists(path) else None
             if old != text:
